@@ -65,6 +65,14 @@ NeverNullWhileQueued == [][ (act'.op = "read" /\ oq.q # <<>>) => ret' = Head(oq.
 EndCoversPut == oq.end >= oq.p \/ act.op = "setFileSize"
 
 (***************************************************************************)
+(* Refinement: with the queue abstracted to its length this is OQAbs.tla,  *)
+(* whose counters/capacity invariants Apalache proves for unbounded values *)
+(***************************************************************************)
+Abs == INSTANCE OQAbs WITH Inf <- Inf, len <- Len(oq.q), g <- oq.g, p <- oq.p, end <- oq.end, cap <- oq.cap,
+                           abort <- oq.abort, eof <- OQEof(oq)
+RefinesAbs == Abs!Spec
+
+(***************************************************************************)
 (* Edge log for conformance mode M1: every generated transition is printed *)
 (* as one JSON line; tools/graph.py turns them into a path cover that the  *)
 (* harness replays on the real ObjectQueue.                                *)
